@@ -209,12 +209,15 @@ impl DigitString {
             .iter()
             .take_while(|&c| *c == b'0')
             .count();
-        if padding_zeroes == positions {
-            self.buffer[l - 1] = b'1';
+        let implicit_one = padding_zeroes == positions;
+        if implicit_one {
             padding_zeroes -= 1;
         }
         let span = 2 * positions - padding_zeroes;
         if l >= span && all_zeros(&self.buffer[(l - span)..(l - positions)]) {
+            if implicit_one {
+                self.buffer[l - 1] = b'1';
+            }
             let (left, right) = self.buffer.split_at_mut(l - positions);
             left[(l - span)..].swap_with_slice(&mut right[padding_zeroes..]);
             Ok(())
